@@ -4,6 +4,7 @@ import (
 	"fmt"
 	"os"
 	"path/filepath"
+	"sort"
 	"strings"
 	"sync"
 	"sync/atomic"
@@ -11,17 +12,20 @@ import (
 
 	"cuelang.org/go/cue/ast"
 	"cuelang.org/go/cue/format"
+	"cuelang.org/go/cue/literal"
 	"cuelang.org/go/cue/parser"
+	"cuelang.org/go/cue/scanner"
 	"cuelang.org/go/cue/token"
 	"cuelang.org/go/verifharness/kit"
 	"cuelang.org/go/verifharness/tlaval"
+	"golang.org/x/tools/txtar"
 )
 
 func init() { register("C08", "exploration", checkC08) }
 
 type fmtLayout struct {
 	sep, colon, op     int
-	parens, trail      bool
+	parens, trail, hug bool
 	blank              int
 	indent             string
 	doc, line, in, end bool
@@ -110,14 +114,14 @@ func (l fmtLayout) list(es ...string) string {
 		}
 	} else {
 		b.WriteString(strings.Join(es, sep))
-		if l.trail || multi {
+		if (l.trail || multi) && !(l.hug && multi && !l.end) {
 			b.WriteString(",")
 		}
 	}
 	if l.end {
 		b.WriteString("\n" + l.ind() + "// end")
 	}
-	if multi {
+	if multi && !(l.hug && !l.end && !l.celem) {
 		b.WriteString("\n")
 	}
 	b.WriteString("]")
@@ -175,7 +179,7 @@ func (l fmtLayout) decl(kind string, n int) (text string, needsStrings bool) {
 	case "nestedlist":
 		return doc + f("nl") + ":" + S0 + l.list(l.list("1", "2"), "[]", l.members("q:"+S+"1")) + line, false
 	case "callml":
-		return doc + f("cm") + ":" + S0 + "strings.Join([\n" + l.ind() + `"a",` + "\n" + l.ind() + `"b",` + "\n]," + S + `"-")` + line, true
+		return doc + f("cm") + ":" + S0 + "strings.Join([\n" + l.ind() + `"a",` + "\n" + l.ind() + `"b",` + "\n]," + map[bool]string{true: "\n" + l.ind(), false: S}[l.hug] + `"-")` + line, true
 	case "selidx":
 		return doc + f("si") + ":" + S0 + "{a:" + S + "[1,2,3]}.a[1" + O + "+" + O + "0]" + O + "+" + OB + "[1,2,3][0:2][0]" + line, false
 	case "interp":
@@ -249,6 +253,13 @@ func treeString(n ast.Node) string {
 	}
 	ast.Walk(n, func(nd ast.Node) bool {
 		switch x := nd.(type) {
+		case *ast.Field:
+			// a string label denotes the field of that name however it is quoted
+			if l, ok := x.Label.(*ast.BasicLit); ok && l.Kind == token.STRING {
+				if u, err := literal.Unquote(l.Value); err == nil {
+					norm[l] = "label:" + u
+				}
+			}
 		case *ast.Interpolation:
 			var lits []*ast.BasicLit
 			for _, e := range x.Elts {
@@ -264,11 +275,37 @@ func treeString(n ast.Node) string {
 		}
 		return true
 	}, nil)
+	// a doc comment the parser hung on a field's label (a field continuing a chain on a new line)
+	// stands before the field: report it as the field's
+	labelDocs := map[*ast.Field][]*ast.CommentGroup{}
+	skip := map[*ast.CommentGroup]bool{}
 	ast.Walk(n, func(nd ast.Node) bool {
+		if f, ok := nd.(*ast.Field); ok && f.Label != nil {
+			for _, cg := range ast.Comments(f.Label) {
+				if cg.Position == 0 {
+					labelDocs[f] = append(labelDocs[f], cg)
+					skip[cg] = true
+				}
+			}
+		}
+		return true
+	}, nil)
+	var dumpCG func(cg *ast.CommentGroup, depth int)
+	dumpCG = func(cg *ast.CommentGroup, depth int) {
+		fmt.Fprintf(&b, "%sCommentGroup doc=true pos=0\n", strings.Repeat(" ", depth))
+		for _, c := range cg.List {
+			fmt.Fprintf(&b, "%sComment %q\n", strings.Repeat(" ", depth+1), c.Text)
+		}
+	}
+	ast.Walk(n, func(nd ast.Node) bool {
+		if cg, ok := nd.(*ast.CommentGroup); ok && skip[cg] {
+			return false
+		}
 		b.WriteString(strings.Repeat(" ", depth))
 		switch x := nd.(type) {
 		case *ast.CommentGroup:
-			fmt.Fprintf(&b, "CommentGroup doc=%v line=%v pos=%d", x.Doc, x.Line, x.Position)
+			// Line (the comment shares a line with the preceding token) is layout; Doc and Position say where it is attached
+			fmt.Fprintf(&b, "CommentGroup doc=%v pos=%d", x.Doc, x.Position)
 		case *ast.Comment:
 			fmt.Fprintf(&b, "Comment %q", x.Text)
 		case *ast.BasicLit:
@@ -296,8 +333,18 @@ func treeString(n ast.Node) string {
 		}
 		b.WriteString("\n")
 		depth++
+		if f, ok := nd.(*ast.Field); ok {
+			for _, cg := range labelDocs[f] {
+				dumpCG(cg, depth)
+			}
+		}
 		return true
-	}, func(ast.Node) { depth-- })
+	}, func(nd ast.Node) {
+		if cg, ok := nd.(*ast.CommentGroup); ok && skip[cg] {
+			return
+		}
+		depth--
+	})
 	return b.String()
 }
 
@@ -307,7 +354,7 @@ func checkC08(r *kit.Run) {
 		"the syntax tree is compared without positions: node types, literal text, operators, attributes, and every comment group with its doc/line flags and attachment position",
 		"arbitrary parseable files (the repository's own .cue corpus) are not part of this model-generated space; the -s simplifications are only checked for idempotence",
 	}
-	tres, err := kit.RunTLC(kit.TLCOpts{Module: "FmtLayout", CfgText: "INIT TablesInit\nNEXT Next\nCONSTANTS MaxDecls = 0 Sample = 0\n", Dump: true, Workers: 1, Timeout: 5 * time.Minute})
+	tres, err := kit.RunTLC(kit.TLCOpts{Module: "FmtLayout", CfgText: "INIT TablesInit\nNEXT Next\nCONSTANTS MaxDecls = 0 Sample = 0 NFiles = 0\n", Dump: true, Workers: 1, Timeout: 5 * time.Minute})
 	if err != nil || !tres.OK() {
 		r.Fatal("FmtLayout tables: %v\n%s", err, tres.Tail(20))
 	}
@@ -318,7 +365,7 @@ func checkC08(r *kit.Run) {
 		}
 	})
 	tres.Cleanup()
-	res, err := kit.RunTLC(kit.TLCOpts{Module: "FmtLayout", CfgText: fmt.Sprintf("INIT Init\nNEXT Next\nCONSTANTS MaxDecls = %d Sample = %d\n", kit.Pick(r, 2, 2), kit.Pick(r, 6, 48)), Dump: true, Seed: r.Seed + 23, Timeout: 30 * time.Minute, Heap: "24g"})
+	res, err := kit.RunTLC(kit.TLCOpts{Module: "FmtLayout", CfgText: fmt.Sprintf("INIT Init\nNEXT Next\nCONSTANTS MaxDecls = %d Sample = %d NFiles = 0\n", kit.Pick(r, 2, 2), kit.Pick(r, 6, 48)), Dump: true, Seed: r.Seed + 23, Timeout: 30 * time.Minute, Heap: "24g"})
 	defer res.Cleanup()
 	if err != nil || res.TimedOut || !res.OK() {
 		r.Fatal("FmtLayout model: %v\n%s", err, res.Tail(20))
@@ -331,7 +378,7 @@ func checkC08(r *kit.Run) {
 	n, err := kit.ForEachState(res.DumpPath, nil, 16, func(w int, st tlaval.State) {
 		lr := tlaval.AsRec(st["layout"])
 		l := fmtLayout{sep: tlaval.AsInt(lr["sep"]), colon: tlaval.AsInt(lr["colon"]), op: tlaval.AsInt(lr["op"]), parens: tlaval.AsBool(lr["parens"]),
-			trail: tlaval.AsBool(lr["trail"]), blank: tlaval.AsInt(lr["blank"]), indent: tlaval.AsStr(lr["indent"])}
+			trail: tlaval.AsBool(lr["trail"]), hug: tlaval.AsBool(lr["hug"]), blank: tlaval.AsInt(lr["blank"]), indent: tlaval.AsStr(lr["indent"])}
 		for _, c := range tlaval.StrSet(st["comments"]) {
 			switch c {
 			case "doc":
@@ -423,6 +470,61 @@ func checkC08(r *kit.Run) {
 	if canary == 0 || caught != canary {
 		r.Fatal("canary: %d of %d altered files have a different tree", caught, canary)
 	}
+	// ---- the repository's own sources and their whitespace / comment mutants ----
+	corpus := loadCorpus(kit.RepoDir())
+	if len(corpus) < 500 {
+		r.Fatal("corpus: only %d parseable CUE sources found below %s", len(corpus), kit.RepoDir())
+	}
+	var cops []string
+	{
+		tr, err := kit.RunTLC(kit.TLCOpts{Module: "FmtLayout", CfgText: "INIT TablesInit\nNEXT Next\nCONSTANTS MaxDecls = 0 Sample = 0 NFiles = 0\n", Dump: true, Workers: 1, Timeout: 5 * time.Minute})
+		if err != nil || !tr.OK() {
+			r.Fatal("FmtLayout tables: %v", err)
+		}
+		kit.ForEachState(tr.DumpPath, nil, 1, func(_ int, st tlaval.State) {
+			for _, x := range tlaval.AsSeq(tlaval.AsRec(st["decls"])["ops"]) {
+				cops = append(cops, tlaval.AsStr(x))
+			}
+		})
+		tr.Cleanup()
+	}
+	cres, err := kit.RunTLC(kit.TLCOpts{Module: "FmtLayout", CfgText: fmt.Sprintf("INIT CorpusInit\nNEXT Next\nCONSTANTS MaxDecls = 0 Sample = %d NFiles = %d\n", kit.Pick(r, 8000, 200000), len(corpus)), Dump: true, Seed: r.Seed + 29, Timeout: 30 * time.Minute, Heap: "16g"})
+	if err != nil || cres.TimedOut || !cres.OK() {
+		r.Fatal("FmtLayout corpus model: %v\n%s", err, cres.Tail(20))
+	}
+	r.AddTLC("FmtLayout corpus mutants", cres)
+	var cfiles, cskipped int64
+	_, err = kit.ForEachState(cres.DumpPath, nil, 16, func(w int, st tlaval.State) {
+		m := tlaval.AsRec(st["decls"])
+		cf := corpus[tlaval.AsInt(m["file"])-1]
+		op := cops[tlaval.AsInt(m["op"])-1]
+		src, mctx := mutateAtToken(cf.src, op, tlaval.AsInt(m["at"]))
+		typ, what, extra, parsed := c08Verdict(src)
+		if !parsed {
+			atomic.AddInt64(&cskipped, 1)
+			return
+		}
+		atomic.AddInt64(&cfiles, 1)
+		if typ != "" {
+			delete(extra, "tree")
+			extra["input"] = fmt.Sprintf("%s op=%s at=%d", cf.name, op, tlaval.AsInt(m["at"]))
+			key := fmt.Sprintf("corpus %s %s", typ, cf.name)
+			if op != "none" {
+				// a mutation at an arbitrary token boundary: one class per kind of failure (see DESIGN.md §10.4)
+				key = "class corpus-mutant " + typ
+				r.Add("corpus_mutant_failures_"+typ, 1)
+				extra["context"] = op + " " + mctx
+			}
+			r.Violation(key, what+"\n(input: "+extra["input"]+")", extra)
+		}
+	})
+	cres.Cleanup()
+	if err != nil {
+		r.Fatal("FmtLayout corpus dump: %v", err)
+	}
+	r.Set("corpus_sources", len(corpus))
+	r.Set("corpus_inputs_checked", int(cfiles))
+	r.Set("corpus_mutants_not_parsing", int(cskipped))
 	// the command line: `cue fmt --files dir` must write exactly what format.Source gives, and
 	// `cue fmt --check` must then find nothing left to do
 	cueBinary = filepath.Join(kit.VerifDir(), ".build", "cue")
@@ -545,4 +647,119 @@ func firstLines(s string, n int) string {
 		l = l[:n]
 	}
 	return strings.Join(l, " | ")
+}
+
+type corpusFile struct {
+	name, src string
+}
+
+// loadCorpus collects the CUE sources of the repository (files and the .cue
+// sections of txtar archives) that parse, in a fixed order.
+func loadCorpus(root string) []corpusFile {
+	var out []corpusFile
+	add := func(name string, b []byte) {
+		if len(b) == 0 || len(b) > 64<<10 {
+			return
+		}
+		if _, err := parser.ParseFile(name, b, parser.ParseComments); err != nil {
+			return
+		}
+		out = append(out, corpusFile{name, string(b)})
+	}
+	filepath.WalkDir(root, func(p string, d os.DirEntry, err error) error {
+		if err != nil {
+			return nil
+		}
+		if d.IsDir() {
+			if d.Name() == ".git" {
+				return filepath.SkipDir
+			}
+			return nil
+		}
+		rel, _ := filepath.Rel(root, p)
+		switch {
+		case strings.HasSuffix(p, ".cue"):
+			b, _ := os.ReadFile(p)
+			add(rel, b)
+		case strings.HasSuffix(p, ".txtar"):
+			b, err := os.ReadFile(p)
+			if err != nil {
+				return nil
+			}
+			for _, f := range txtar.Parse(b).Files {
+				if strings.HasSuffix(f.Name, ".cue") {
+					add(rel+":"+f.Name, f.Data)
+				}
+			}
+		}
+		return nil
+	})
+	sort.Slice(out, func(i, j int) bool { return out[i].name < out[j].name })
+	return out
+}
+
+// mutateAtToken applies a whitespace / comment mutation at the token boundary
+// at/20 of the way through src.
+func mutateAtToken(src, op string, at int) (out, context string) {
+	if op == "none" {
+		return src, ""
+	}
+	var offs []int // offsets where a token starts
+	var toks []token.Token
+	var sc scanner.Scanner
+	f := token.NewFile("m.cue", -1, len(src))
+	sc.Init(f, []byte(src), func(token.Pos, string, []interface{}) {}, scanner.ScanComments)
+	for {
+		pos, tok, _ := sc.Scan()
+		if tok == token.EOF {
+			break
+		}
+		if pos.IsValid() && tok != token.COMMA || (tok == token.COMMA && pos.Offset() < len(src) && src[pos.Offset()] == ',') {
+			offs = append(offs, pos.Offset())
+			toks = append(toks, tok)
+		}
+	}
+	if len(offs) < 2 {
+		return src, ""
+	}
+	ti := 1 + (at*(len(offs)-1))/20%(len(offs)-1)
+	o := offs[ti]
+	context = fmt.Sprintf("after %s before %s", toks[ti-1], toks[ti])
+	out = mutateAt(src, op, o)
+	return out, context
+}
+
+func mutateAt(src, op string, o int) string {
+	switch op {
+	case "newline":
+		return src[:o] + "\n" + src[o:]
+	case "blank-line":
+		return src[:o] + "\n\n" + src[o:]
+	case "line-comment":
+		return src[:o] + "\n// m\n" + src[o:]
+	case "eol-comment":
+		return src[:o] + " // m\n" + src[o:]
+	case "doc-comment-before":
+		return src[:o] + "// m\n" + src[o:]
+	case "strip-space":
+		j := o
+		for j > 0 && (src[j-1] == ' ' || src[j-1] == '\t') {
+			j--
+		}
+		return src[:j] + src[o:]
+	case "comma":
+		return src[:o] + ", " + src[o:]
+	case "tab":
+		return src[:o] + "\t  " + src[o:]
+	case "paren":
+		// parenthesise the token when it is a simple operand
+		e := o
+		for e < len(src) && (src[e] == '_' || src[e] >= '0' && src[e] <= '9' || src[e] >= 'a' && src[e] <= 'z' || src[e] >= 'A' && src[e] <= 'Z') {
+			e++
+		}
+		if e > o {
+			return src[:o] + "(" + src[o:e] + ")" + src[e:]
+		}
+	}
+	return src
 }
